@@ -236,6 +236,7 @@ class Fn:
 class Const:
     name: str
     source: str | None = None
+    nth: int = 1          # which definition (cfg-dependent constants are defined more than once)
 
 
 @dataclass
@@ -669,9 +670,10 @@ def extract_block(repo: Path, unit: VUnit, b: Block) -> tuple[str, dict]:
 
 def extract_const(repo: Path, unit: VUnit, c: Const) -> str:
     src = (repo / (c.source or unit.source)).read_text()
-    m = re.search(r"^\s*(?:pub(?:\([a-z]+\))?\s+)?const\s+" + re.escape(c.name) + r"\s*:[^;]*;", src, re.M)
-    if not m:
-        raise LostAnchor(f"const {c.name} not found")
+    ms = list(re.finditer(r"^\s*(?:pub(?:\([a-z]+\))?\s+)?const\s+" + re.escape(c.name) + r"\s*:[^;]*;", src, re.M))
+    if len(ms) < c.nth:
+        raise LostAnchor(f"const {c.name} (definition #{c.nth}) not found")
+    m = ms[c.nth - 1]
     return re.sub(r"^\s*pub(\([a-z]+\))?\s+", "", m.group(0).strip()) + "\n"
 
 
